@@ -22,7 +22,8 @@ RULE = ("grids of 1-12 combinations, repetitions 1-6 (>=2 for variance modes), a
         "optimum forced first / middle / last or tied; the search runs serially and on a simulated pool (1..16 workers, "
         "seeded durations / ties / stalled workers); non-trivial = >=3 combinations with the optimum not at an end, or "
         "a tie for best, or |score| > sys.maxsize; distinct = (mode, combinations, repetitions, processes, best index, "
-        "tie?, magnitude class, completion permutation)")
+        "tie?, magnitude class, completion permutation)"
+        "; also: numpy integer scores, sibling ParameterList edited before the search, duplicate combinations handled in the oracle; real-pool arm changes program state between two parallel searches; rare switch for known finding F9")
 COMPONENTS = {"real": ["ECAgent.Batching.grid_search", "_run_model_for_search", "_score_model_for_search", "ParameterList",
                        "statistics.mean/variance as called by the package", "ECAgent.Core.Model / SystemManager"],
               "stub": ["multiprocessing.Pool -> simkit.simpool.SimPool", "models and score function are harness workloads"]}
